@@ -133,7 +133,38 @@ pub fn small_cases(maxlen: usize, shard: usize, nshards: usize, wm_max_w: usize)
     })
 }
 
+/// the Python iterator (pykmertools.MinimiserGenerator) against the model
+pub struct Python;
+impl Leg for Python {
+    type Case = Case;
+    const NAME: &'static str = "python";
+    fn strategy(tier: Tier) -> BoxedStrategy<Case> {
+        Random::strategy(tier)
+    }
+    fn check(c: &Case) -> Verdict {
+        let mut v = Verdict::new();
+        let seq = super::c01::utf8_safe(&c.seq);
+        let want = model::minimiser_runs(&seq, c.w, c.m);
+        classify(&mut v, &seq, c.w, c.m, &want);
+        v.class("python");
+        match crate::pyworker::ask(&serde_json::json!({"op": "mins", "w": c.w, "m": c.m, "seq": crate::pyworker::hex(&seq)})).and_then(|r| super::c01::parse_tuples_u64(&r, 3)) {
+            Err(e) => v.fail("python-worker", e),
+            Ok(got) => {
+                let got: Vec<(u64, usize, usize)> = got.iter().map(|t| (t[0], t[1] as usize, t[2] as usize)).collect();
+                let mut vv = Verdict::new();
+                compare(&mut vv, &got, &want, c.w, c.m);
+                if let Some(f) = vv.fail {
+                    v.fail(format!("python-{}", f.sig), format!("pykmertools.MinimiserGenerator: {}", f.msg));
+                }
+            }
+        }
+        v
+    }
+}
+
 pub fn run(ctx: &mut Ctx) {
+    let n = ctx.share(ctx.tier.pick(30_000, 400_000));
+    ctx.run_leg::<Python>(n, false, 1000);
     let maxlen = ctx.tier.pick(8, 11);
     let items = small_cases(maxlen, ctx.shard, ctx.nshards, 99);
     ctx.run_enum(
@@ -150,6 +181,7 @@ pub fn run(ctx: &mut Ctx) {
 pub fn replay(leg: &str, case: &serde_json::Value) -> Option<Result<Verdict, String>> {
     match leg {
         "exhaustive" | "random" => Some(crate::engine::replay_leg::<Random>(case)),
+        "python" => Some(crate::engine::replay_leg::<Python>(case)),
         _ => None,
     }
 }
